@@ -23,9 +23,14 @@
 (*   TickNoExpiry          leases never expire ("TODO: Actually make them expire")           *)
 (* and two faults that only the first deviation makes reachable (RequestFault, ReleaseFault: *)
 (* SimpleAddressPool.append raises because the address is already back in the pool).         *)
-(* With Strict = TRUE those are off and TLC proves the listed properties; with Strict =      *)
-(* FALSE the spec admits the intended behaviour AND the deviations (so a repaired server     *)
-(* still conforms), and only the weaker invariants are claimed.                              *)
+(*   Strict = TRUE              the intended design only: TLC proves the listed properties.  *)
+(*   Strict = FALSE, Both = TRUE   intended behaviour AND deviations are admitted: this is   *)
+(*                              the model traces of the code are validated against (a server *)
+(*                              repaired at any of the three places still conforms); only    *)
+(*                              the weaker invariants are claimed for it.                    *)
+(*   Strict = FALSE, Both = FALSE  exactly the code as built (deterministic with PickMode =  *)
+(*                              "impl"): the model behaviours are exported from for replay;  *)
+(*                              a deviation step logs the intended outcomes as args.alt.     *)
 EXTENDS Naturals, Sequences, FiniteSets, TLC, Json, SequencesExt
 
 CONSTANTS Clients,     \* client symbols (strings): Ethernet source addresses
